@@ -20,13 +20,13 @@ func init() {
 }
 
 func checkC11(c *Ctx) {
-	c.Rule("R11.1", "order of effects: Enabled and level-range guards dominate every counter access; table dimensions match the guards", 5)
-	c.Rule("R11.2", "one decision, one hook, applied as reported; hooks only for in-range levels", 6)
+	c.Rule("R11.1", "order of effects: Enabled and level-range guards dominate every counter access; table dimensions match the guards", 3)
+	c.Rule("R11.2", "one decision, one hook, applied as reported; hooks only for in-range levels", 4)
 	c.Rule("R11.3", "shared budget: With copies counts/tick/first/thereafter/hook; constructor allocates counts once and defaults the hook", 2)
 	c.Rule("R11.4", "the modulo is evaluated only under thereafter != 0", 1)
-	c.Rule("R11.5", "bucket key: level offset and full-message hash", 3)
+	c.Rule("R11.5", "bucket key: level offset and full-message hash", 2)
 	c.Rule("R11.7", "admission predicate has exactly the documented form", 2)
-	c.Rule("R11.8", "window protocol: entry timestamp, single comparison, same constant, CAS from the loaded value, no wall clock", 6)
+	c.Rule("R11.8", "window protocol: entry timestamp, single comparison, same constant, CAS from the loaded value, no wall clock", 4)
 
 	fn := c.Method(CorePath, "sampler", "Check")
 	if !c.Anchor("R11.1", "zapcore.sampler.Check", fn != nil) {
